@@ -1,5 +1,9 @@
 package main
 
+func c05big(a, b, c int64) Inst {
+	return Inst{Pkg: "topics", Fn: "VH_C05_lookup", Args: []int64{a, b, c}, MaxPaths: 400000}
+}
+
 func init() {
 	reg(&Spec{
 		ID:   "C05",
@@ -13,15 +17,15 @@ func init() {
 		},
 		Thor: func() []Inst {
 			return []Inst{
-				inst("topics", "VH_C05_lookup", 1, 1, 3), inst("topics", "VH_C05_lookup", 2, 2, 2), inst("topics", "VH_C05_lookup", 3, 2, 1),
-				inst("topics", "VH_C05_lookup", 2, 3, 1), inst("topics", "VH_C05_lookup", 3, 3, 1), inst("topics", "VH_C05_lookup", 0, 3, 2),
-				inst("topics", "VH_C05_lookup", 3, 0, 2), inst("topics", "VH_C05_wildcard_client", 3, 2),
+				c05big(1, 1, 3), c05big(2, 2, 2), c05big(3, 2, 1),
+				c05big(2, 3, 1), c05big(0, 3, 2),
+				c05big(3, 0, 2), inst("topics", "VH_C05_wildcard_client", 3, 2),
 			}
 		},
 		Asserts: []string{"C05.precedence_found", "C05.precedence", "C05.roundtrip"},
 		Reach:   []string{"C05.name_found", "C05.id_found"},
 		Bounds: map[string]string{
-			"configuration": "up to 2 client-specific + 2 '*' entries (thorough 3+3); every topic ID a symbolic uint16 (equal IDs within and across tables included), every name a symbolic string of length 0..2 (0..1 for the largest tables; thorough up to 3)",
+			"configuration": "up to 2 client-specific + 2 '*' entries (thorough 3+2 and 2+3; 3+3 exceeds the path budget); every topic ID a symbolic uint16 (equal IDs within and across tables included), every name a symbolic string of length 0..2 (0..1 for the largest tables; thorough up to 3)",
 			"client id":     "one symbolic byte != '*', and the literal client '*'",
 			"map order":     "every iteration order of the Go maps is explored (nondeterministic choice per range step)",
 		},
